@@ -34,6 +34,12 @@ def cases(tier, seed):
                 continue
             for r in range(reps):
                 out.append(dict(cfg=cfg, family=fam, B=16, s=rnd.randrange(10**6)))
+    # slow vehicles (speed < 1: the clock runs faster than the distance) on longer instances, where no-wait chains of several
+    # customers end right at a deadline
+    for cfg in envzoo.routing_configs((20,) if tier == "quick" else (20, 30)):
+        if cfg.get("speed", 1.0) < 1.0 or (cfg["env"] == "cvrptw" and tier != "quick"):
+            for r in range(reps):
+                out.append(dict(cfg=cfg, family="gen", B=16, s=rnd.randrange(10**6)))
     return out
 
 
